@@ -254,6 +254,37 @@ type patInst struct {
 	f     *mfield
 	pat   string // neither | primary | alias | both
 	depth int
+	// expanded-leaf keys of the two names (leaf fields only)
+	pk, ak string
+}
+
+// emptyLabels classifies aliased collection leaves that were supplied with an
+// explicitly empty value under the primary name, the alias name, or on at
+// least one side of a "both" pattern.
+func emptyLabels(pats []patInst, supply map[string]uint64, lab map[string]bool) {
+	for _, p := range pats {
+		if !p.f.leaf || p.pat == "neither" {
+			continue
+		}
+		emptyAt := func(k string) bool {
+			seed, ok := supply[k]
+			return ok && isEmptyCollection(makeVal(p.f.typ, seed))
+		}
+		switch p.pat {
+		case "primary":
+			if emptyAt(p.pk) {
+				lab["empty-collection:primary"] = true
+			}
+		case "alias":
+			if emptyAt(p.ak) {
+				lab["empty-collection:alias"] = true
+			}
+		case "both":
+			if emptyAt(p.pk) || emptyAt(p.ak) {
+				lab["empty-collection:both"] = true
+			}
+		}
+	}
 }
 
 type evalResult struct {
@@ -302,7 +333,7 @@ func (m *model) eval(supply map[string]uint64) evalResult {
 					any = true
 				}
 				if f.hasAlias {
-					res.pats = append(res.pats, patInst{f: f, pat: pat, depth: f.depth})
+					res.pats = append(res.pats, patInst{f: f, pat: pat, depth: f.depth, pk: pk, ak: ak})
 				}
 				continue
 			}
@@ -417,14 +448,29 @@ var leafTypes = []string{
 }
 
 // makeVal builds the value for a supplied leaf.  One in five scalar values is
-// the zero value of the type: a supplied zero must still count as "set".
-// Collections are never empty (an empty collection has no agreed spelling in
-// the text sources).
+// the zero value of the type and one in four collection values is an
+// explicitly empty, non-nil collection: a supplied zero / empty value must
+// still count as "set".  (Spellings of the empty collection, verified against
+// the unchanged tree for []string, []int, map[string]string and the string
+// set: NAME="" in the environment, -name= / --name= for both flag sources,
+// [] / {} in JSON, YAML, TOML and Cue; each yields a non-nil collection of
+// length 0.)
 func makeVal(typ string, seed uint64) reflect.Value {
 	t := shape.MustType(typ)
 	r := &sm{s: seed}
 	zero := r.next()%5 == 0
+	// one supplied collection value in four is explicitly empty (non-nil, no
+	// elements): "set" is about nil-ness, not about length
+	empty := r.next()%4 == 0
 	v := reflect.New(t).Elem()
+	if empty {
+		switch t.Kind() {
+		case reflect.Slice:
+			return reflect.MakeSlice(t, 0, 0)
+		case reflect.Map:
+			return reflect.MakeMap(t)
+		}
+	}
 	switch typ {
 	case "time.Duration":
 		if !zero {
@@ -483,6 +529,14 @@ func makeVal(typ string, seed uint64) reflect.Value {
 		panic("makeVal: unsupported type " + typ)
 	}
 	return v
+}
+
+func isEmptyCollection(v reflect.Value) bool {
+	switch v.Kind() {
+	case reflect.Slice, reflect.Map:
+		return v.Len() == 0
+	}
+	return false
 }
 
 func isZeroScalar(v reflect.Value) bool {
@@ -578,6 +632,9 @@ func docValue(v reflect.Value, toml bool) string {
 				sep = " = "
 			}
 			parts[i] = strconv.Quote(k) + sep + strconv.Quote(v.MapIndex(reflect.ValueOf(k)).String())
+		}
+		if len(parts) == 0 {
+			return "{}"
 		}
 		if toml {
 			return "{ " + strings.Join(parts, ", ") + " }"
